@@ -314,6 +314,83 @@ def _accum_rule(chk):
     chk.floor(rule, 1, n)
 
 
+def _fval(n):
+    """numeric value of a constant bound expression (double literals, integer constants, casts, unary minus)"""
+    n0 = n
+    while n is not None and n.k == "cast":
+        n = n.kids[0]
+    if n is None:
+        return None
+    if n.k == "flt":
+        return float(n.d.get("fv"))
+    if n.v is not None:
+        return float(n.v)
+    if n.k == "un" and n.op == "-":
+        v = _fval(n.kids[0])
+        return None if v is None else -v
+    if n0.v is not None:
+        return float(n0.v)
+    return None
+
+
+def _castrange_rule(chk, tu):
+    """Converting a double outside the target range to a 64-bit integer is undefined in C (x86 yields INT64_MIN).
+    Comparisons and conversions are exact only if every (int64_t)d / (uint64_t)d is reached with
+    -2^63 <= d < 2^63 (0 <= d < 2^64).  Note (double)INT64_MAX is 2^63 itself: `d > (double)INT64_MAX` being
+    false does NOT exclude d == 2^63."""
+    rule = "C14-CASTRANGE"
+    chk.rule(rule, "every double -> 64-bit integer cast is dominated by range checks that put the value strictly inside the target range")
+    n = 0
+    LIM = {"int64_t": (-2.0 ** 63, 2.0 ** 63), "uint64_t": (0.0, 2.0 ** 64), "long": (-2.0 ** 63, 2.0 ** 63), "unsigned long": (0.0, 2.0 ** 64)}
+    for fn in tu.funcs.values():
+        sites = [x for x in fn.nodes if x.k == "cast" and x.t in LIM and x.kids and (x.kids[0].t or "") in ("double", "float")]
+        if not sites:
+            continue
+        chk.analysed(fn)
+        IN, T = flow.condition_facts(fn)
+        seen = set()
+        for x, S in flow.states_at(fn, IN, T):
+            if x not in sites or (x.ln, x.text()) in seen:
+                continue
+            seen.add((x.ln, x.text()))
+            n += 1
+            chk.instance(rule)
+            lo, hi = LIM[x.t]
+            var = strip_casts(x.kids[0]).text()
+            problems = []
+            for ps in S:
+                up = low = False
+                for (op, l, r, _, ln, rn) in ps:
+                    if rn is None:
+                        continue
+                    if l == var:
+                        b = _fval(rn)
+                        o = op
+                    elif r == var:
+                        b = _fval(ln)
+                        o = {"<": ">", ">": "<", "<=": ">=", ">=": "<=", "==": "==", "!=": "!="}[op]
+                    else:
+                        continue
+                    if b is None:
+                        continue
+                    if (o == "<" and b <= hi) or (o == "<=" and b < hi) or (o == "==" and lo <= b < hi):
+                        up = True
+                    if (o == ">=" and b >= lo) or (o == ">" and b >= lo) or (o == "==" and lo <= b < hi):
+                        low = True
+                if not up:
+                    problems.append("no upper bound below %s" % ("2^63" if hi == 2.0 ** 63 else "2^64"))
+                if not low:
+                    problems.append("no lower bound at or above %s" % ("-2^63" if lo else "0"))
+            if problems:
+                chk.violation(rule, tu.name, fn.name, "(%s)%s" % (x.t, var), x.loc,
+                              "`%s` converts a double that is not confined to the target range on every path (%s): for the boundary "
+                              "value the conversion is undefined and the comparison/conversion result is wrong"
+                              % (x.text(), "; ".join(sorted(set(problems)))))
+            else:
+                chk.ok(rule, "%s: %s only for values inside the %s range" % (fn.name, x.text(), x.t))
+    chk.floor(rule, 4, n)
+
+
 def run(chk):
     prog = Program.load("default", units=["inttypes.c"])
     tu = prog.tus["inttypes.c"]
@@ -322,6 +399,7 @@ def run(chk):
     _shift_rule(chk, tu)
     _methods_rule(chk, prog, tu)
     _accum_rule(chk)
+    _castrange_rule(chk, tu)
     chk.floor("C14-DIV", 14)
     chk.floor("C14-WRAP", 10)
     chk.floor("C14-METHODS", 40)
